@@ -4,6 +4,7 @@ use vstd::prelude::*;
 use std::rc::Rc;
 use std::cmp::Ordering;
 use vstd::std_specs::iter::IteratorSpec;
+use std::collections::HashMap;
 
 verus! {
 
@@ -16,6 +17,12 @@ use vstd::std_specs::iter::IteratorSpec;
 //@@ include prelude/clone_specs.rs
 }
 use jt::*;
+pub mod cl {
+use vstd::prelude::*;
+use std::rc::Rc;
+use super::jt::*;
+//@@ include prelude/clone_axioms.rs
+}
 
 // ---------------------------------------------------------------------------------------------------------
 // the order, as a specification (taken from the property statement C07; per-type orders are named, not defined)
@@ -167,7 +174,10 @@ impl Ord for JsonValue {
 // ---------------------------------------------------------------------------------------------------------
 // the functions that compare / sort with that order
 // ---------------------------------------------------------------------------------------------------------
-//@@ include prelude/fnargs.rs
+//@@ include lemmas/ctx_spec.rs
+//@@ include prelude/ctx_opaque.rs
+//@@ include prelude/get_trait.rs
+//@@ include prelude/fnargs_apply.rs
 impl vstd::std_specs::convert::FromSpecImpl<bool> for JsonValue {
     open spec fn obeys_from_spec() -> bool { true }
     open spec fn from_spec(v: bool) -> Self { JsonValue::Boolean(v) }
@@ -238,12 +248,6 @@ impl Get for Impl {
 }
 }
 
-pub mod cl {
-use vstd::prelude::*;
-use std::rc::Rc;
-use super::jt::*;
-//@@ include prelude/clone_axioms.rs
-}
 pub assume_specification<T: Ord>[ <[T]>::sort_unstable ](s: &mut [T]) ensures final(s)@ == sorted_unstable::<T>(old(s)@);
 pub assume_specification<T: PartialEq, A: std::alloc::Allocator>[ Vec::<T, A>::dedup ](v: &mut Vec<T, A>) ensures final(v)@ == deduped::<T>(old(v)@);
 // IndexMap stand-in: clone is a copy; sort_keys reorders the entries by String's order of the keys (stable; keys are distinct)
@@ -307,6 +311,123 @@ impl Get for Impl {
 //@@ post sorted "(sort_by_keys o) is the object with the same members ordered by key (String order); nothing for a non-object"
 //@@ body-start
         broadcast use group_json_names, super::cl::group_clone_is_copy;
+//@@ endfn
+}
+}
+
+// ---- sorting with a key expression: std's sort_by (stable) with a comparator closure. The closure contract is inserted
+// into the real closure; the assumed std contract: if every answer of the comparator is the value of a spec function c,
+// the result is THE stable sort of the slice by c. ----
+pub uninterp spec fn stable_sorted_by<T>(s: Seq<T>, c: spec_fn(T, T) -> Ordering) -> Seq<T>;
+pub assume_specification<T, F: FnMut(&T, &T) -> Ordering>[ <[T]>::sort_by ](s: &mut [T], f: F)
+    requires forall|a: &T, b: &T| #[trigger] f.requires((a, b)),
+    ensures forall|c: spec_fn(T, T) -> Ordering| (forall|a: &T, b: &T, o: Ordering| #[trigger] f.ensures((a, b), o) ==> o == c(*a, *b))
+        ==> final(s)@ == #[trigger] stable_sorted_by(old(s)@, c);
+pub uninterp spec fn unstable_sorted_by<T>(s: Seq<T>, c: spec_fn(T, T) -> Ordering) -> Seq<T>;
+pub assume_specification<T, F: FnMut(&T, &T) -> Ordering>[ <[T]>::sort_unstable_by ](s: &mut [T], f: F)
+    requires forall|a: &T, b: &T| #[trigger] f.requires((a, b)),
+    ensures forall|c: spec_fn(T, T) -> Ordering| (forall|a: &T, b: &T, o: Ordering| #[trigger] f.ensures((a, b), o) ==> o == c(*a, *b))
+        ==> final(s)@ == #[trigger] unstable_sorted_by(old(s)@, c);
+// indexmap: IndexMap::sort_by is a stable sort of the entries with a comparator over (key, value, key, value)
+impl IndexMap<String, JsonValue> {
+    #[verifier::external_body]
+    pub fn sort_by<F: FnMut(&String, &JsonValue, &String, &JsonValue) -> Ordering>(&mut self, f: F)
+        requires forall|k1: &String, v1: &JsonValue, k2: &String, v2: &JsonValue| #[trigger] f.requires((k1, v1, k2, v2)),
+        ensures forall|c: spec_fn((String, JsonValue), (String, JsonValue)) -> Ordering|
+            (forall|k1: &String, v1: &JsonValue, k2: &String, v2: &JsonValue, o: Ordering| #[trigger] f.ensures((k1, v1, k2, v2), o) ==> o == c((*k1, *v1), (*k2, *v2)))
+            ==> final(self).entries() == #[trigger] stable_sorted_by(old(self).entries(), c),
+    { unimplemented!() }
+}
+// the key of an element: the key expression (argument 1) evaluated with the element as input and the caller's input as parent
+pub open spec fn key_of(args: Seq<Rc<dyn Get>>, ctx: Context, v: JsonValue) -> Option<JsonValue> { arg(args, &ctx_with_input(ctx, v), 1) }
+// absent keys sort first (std: None < Some), present keys by the one total order
+pub open spec fn key_cmp(args: Seq<Rc<dyn Get>>, ctx: Context, a: JsonValue, b: JsonValue) -> Ordering {
+    match (key_of(args, ctx, a), key_of(args, ctx, b)) {
+        (None, None) => Ordering::Equal, (None, Some(_)) => Ordering::Less, (Some(_), None) => Ordering::Greater,
+        (Some(x), Some(y)) => json_cmp(x, y),
+    }
+}
+impl VCmp for Option<JsonValue> {
+    open spec fn vspec(&self, o: &Self) -> Ordering {
+        match (*self, *o) { (None, None) => Ordering::Equal, (None, Some(_)) => Ordering::Less, (Some(_), None) => Ordering::Greater, (Some(x), Some(y)) => json_cmp(x, y) }
+    }
+    #[verifier::external_body] fn vcmp(&self, o: &Self) -> (r: Ordering) { unimplemented!() }
+}
+pub mod f_sort_by {
+use super::*;
+//@@ item src/functions/list/functional/sort_by.rs :: fn get :: struct Impl
+//@@ rewrite pub_tuple pub_struct
+//@@ enditem
+impl Get for Impl {
+    open spec fn get_spec(&self, value: &Context) -> Option<JsonValue> {
+        match arg(self.0@, value, 0) {
+            Some(JsonValue::Array(l)) => Some(json_array(stable_sorted_by(l@, |a: JsonValue, b: JsonValue| key_cmp(self.0@, *value, a, b)))),
+            _ => None,
+        }
+    }
+//@@ fn f.sort_by = src/functions/list/functional/sort_by.rs :: fn get :: impl Get for Impl :: fn get
+//@@ safety C07 C04 C12
+//@@ rewrite cmp_dispatch
+//@@ post sorted "(sort_by l k) is the STABLE sort of the list by the key k evaluated on each element (parent = the caller's input) under the one total order, absent keys first; nothing for a non-list"
+//@@ body-start
+        broadcast use group_json_names, super::cl::group_clone_is_copy;
+//@@ insert-after "list.sort_by(|v1"
+ : &JsonValue
+//@@ insert-after "list.sort_by(|v1, v2"
+ : &JsonValue
+//@@ insert-after "list.sort_by(|v1, v2|"
+ -> (o: Ordering)
+                            ensures o == key_cmp(self.0@, *value, *v1, *v2),
+//@@ endfn
+}
+}
+
+pub mod f_sort_by_values {
+use super::*;
+//@@ item src/functions/object/sort_objects/sort_by_values.rs :: fn get :: struct Impl
+//@@ rewrite pub_tuple pub_struct
+//@@ enditem
+impl Get for Impl {
+    open spec fn get_spec(&self, value: &Context) -> Option<JsonValue> {
+        match arg(self.0@, value, 0) {
+            Some(JsonValue::Object(m)) => Some(json_object(stable_sorted_by(m.entries(), |a: (String, JsonValue), b: (String, JsonValue)| json_cmp(a.1, b.1)))),
+            _ => None,
+        }
+    }
+//@@ fn f.sort_by_values = src/functions/object/sort_objects/sort_by_values.rs :: fn get :: impl Get for Impl :: fn get
+//@@ safety C07 C04
+//@@ rewrite closure4_typed
+//@@ post sorted "(sort_by_values o) is the object with its members STABLY sorted by their values under the one total order; nothing for a non-object"
+//@@ body-start
+        broadcast use group_json_names, super::cl::group_clone_is_copy;
+//@@ insert-after "map.sort_by(|_, v1, _, v2|"
+ -> (o: Ordering) ensures o == json_cmp(*v1, *v2), {
+//@@ insert-after "v1.cmp(v2)"
+ }
+//@@ endfn
+}
+}
+pub mod f_sort_by_values_by {
+use super::*;
+//@@ item src/functions/object/sort_objects/sort_by_values_by.rs :: fn get :: struct Impl
+//@@ rewrite pub_tuple pub_struct
+//@@ enditem
+impl Get for Impl {
+    open spec fn get_spec(&self, value: &Context) -> Option<JsonValue> {
+        match arg(self.0@, value, 0) {
+            Some(JsonValue::Object(m)) => Some(json_object(stable_sorted_by(m.entries(), |a: (String, JsonValue), b: (String, JsonValue)| key_cmp(self.0@, *value, a.1, b.1)))),
+            _ => None,
+        }
+    }
+//@@ fn f.sort_by_values_by = src/functions/object/sort_objects/sort_by_values_by.rs :: fn get :: impl Get for Impl :: fn get
+//@@ safety C07 C04 C12
+//@@ rewrite cmp_dispatch closure4_typed
+//@@ post sorted "(sort_by_values_by o k) is the object with its members STABLY sorted by the key k evaluated on each value (parent = the caller's input) under the one total order, absent keys first; nothing for a non-object"
+//@@ body-start
+        broadcast use group_json_names, super::cl::group_clone_is_copy;
+//@@ insert-after "map.sort_by(|_, v1, _, v2|"
+ -> (o: Ordering)
+                            ensures o == key_cmp(self.0@, *value, *v1, *v2),
 //@@ endfn
 }
 }
